@@ -599,8 +599,8 @@ def translate(text, tag='mod'):
         if m:
             name = m.group(1).strip('"'); rest = re.sub(r',\s*(align \d+|section "[^"]*"|comdat[^,]*|!\w+ !\d+)', '', m.group(4)).strip()
             t, j = parse_type(rest); init = rest[j:].strip(); sz, al = size_align(t)
-            gsizes[name] = sz
             internal = bool(re.search(r'\b(internal|private)\b', m.group(2))) and name not in OPT['export']
+            gsizes[name] = {'size': sz, 'internal': internal, 'cname': gname(name), 'defined': not ('external' in m.group(2) and not rest[j:].strip())}
             if 'external' in m.group(2) and not init:
                 globs.append('extern uint8_t %s[%d];' % (gname(name), sz))
             else:
@@ -693,13 +693,14 @@ def translate_file(path, tag='mod', prefix='ll_', ct=False, export=(), rename=No
     return translate(open(path).read(), tag)
 
 
-def shim_source(real_path, info, prefix):
+def shim_source(real_path, info, prefix, export=()):
     """C source that includes the real file and exposes its functions under the erased ll_ signatures, so the
     harness that drove the translated code can be linked against the gcc build of the real code for replay"""
     out = ['/* replay shim: the real file plus wrappers with the erased signatures */',
            '#include <stdint.h>', '#include <stddef.h>', '#include "%s"' % real_path]
     for name, s in info['functions'].items():
         if any(p.startswith('V') for p in s['params']) or s['ret'].startswith('V'): continue
+        if s['internal'] and name not in export: continue   # clang may have changed the signature of internal functions
         if not re.fullmatch(r'[A-Za-z_]\w*', name): continue
         ps = ', '.join('%s a%d' % (p, k) for k, p in enumerate(s['params'])) or 'void'
         args = ', '.join(('(void*)a%d' % k) if p == 'uint8_t*' else 'a%d' % k for k, p in enumerate(s['params']))
@@ -707,6 +708,10 @@ def shim_source(real_path, info, prefix):
         elif s['ret'] == 'uint8_t*': body = 'return (uint8_t*)%s(%s);' % (name, args)
         else: body = 'return (%s)%s(%s);' % (s['ret'], name, args)
         out.append('%s %s(%s) { %s }' % (s['ret'], s['cname'], ps, body))
+    for name, g in info['globals'].items():
+        if g['internal'] or not g['defined'] or not re.fullmatch(r'[A-Za-z_]\w*', name): continue
+        out.append('extern __typeof__(%s) %s __attribute__((alias("%s")));' % (name, g['cname'], name))
+    out.append('void %s(void) { }' % info['init'])
     return '\n'.join(out) + '\n'
 
 
